@@ -91,6 +91,7 @@ type treeCase struct {
 	tree     objecttree.ObjectTree
 	builder  objecttree.ChangeBuilder
 	attached map[string]*parsed // what the oracle knows to be attached (authentic versions)
+	resync   bool               // the model lost track (unmodelled rebuild path): oracle only from here on
 	ops      []string           // model lines sent so far (replay)
 }
 
@@ -469,7 +470,13 @@ func (tc *treeCase) add(batch []*rawCh, tag string) string {
 		added = append(added, a.Id)
 	}
 	impl := fmt.Sprintf("%s add=%s %s", status, orderedNums(tc, added), tc.post(after))
-	tc.check("auth.add", model, impl)
+	if strings.HasPrefix(model, "rebuild ") {
+		// the batch needs rebuildFromStorage (foreign snapshot id): outside the model, oracle only
+		tc.r.Count("unmodelled.rebuild." + strings.SplitN(status, ":", 2)[0])
+		tc.resync = true
+	} else if !tc.resync {
+		tc.check("auth.add", model, impl)
+	}
 	tc.r.Count("add.outcome." + strings.SplitN(status, ":", 2)[0])
 	tc.r.Count("add.ctx." + tag)
 	// oracle 1: only authentic changes become attached / persisted
@@ -504,7 +511,7 @@ func (tc *treeCase) add(batch []*rawCh, tag string) string {
 		if _, in := tc.attached[p.id]; in {
 			continue
 		}
-		if ok, _ := tc.authentic(p, env); ok {
+		if ok, _ := tc.authentic(p, env); ok && (p.isRoot || p.snap == tc.rootId) {
 			tc.r.Count("oracle.authentic-not-attached." + strings.SplitN(status, ":", 2)[0])
 			env[p.id] = p
 		} else {
@@ -531,7 +538,9 @@ func (tc *treeCase) reopen(tag string) bool {
 	if err != nil {
 		impl = "err"
 	}
-	tc.check("auth.reopen", model, impl)
+	if !tc.resync {
+		tc.check("auth.reopen", model, impl)
+	}
 	tc.r.Count("reopen." + tag + "." + impl)
 	if err != nil {
 		// every stored change was authentic when it was stored; count what full validation now loses
@@ -636,7 +645,11 @@ func (tc *treeCase) validate(root *rawCh, batch []*rawCh, heads []string, tag st
 		tr.IterateRoot(nil, func(c *objecttree.Change) bool { iter = append(iter, c.Id); return true })
 		impl = "ok a=" + sortedNums(tc, iter)
 	}
-	tc.check("auth.validate", model, impl)
+	if model == "rebuild" {
+		tc.r.Count("unmodelled.rebuild.validate")
+	} else {
+		tc.check("auth.validate", model, impl)
+	}
 	tc.r.Count("validate." + tag + "." + strings.SplitN(impl, " ", 2)[0])
 	if err != nil {
 		return
